@@ -977,3 +977,42 @@ package rockredis
 //@   ensures result0 == 0 || result0 == 1
 //@   ensures result0 == 0 && result1 == nil ==> ghost(wbputs, db.wb) == old(ghost(wbputs, db.wb)) && ghost(commits, db.rockEng) == old(ghost(commits, db.rockEng))
 //@   modifies ghost(wbputs, _), ghost(wbdels, _), ghost(wbver, _), ghost(commits, _), ghost(cputs, _), ghost(cdels, _), ghost(cver, _), ghost(tblcnt, db), ghost(kvttlset, db), ghost(expdels, _)
+
+// SET / SETEX / GETSET overwrite the whole value: the old expiry is dropped (ttl 0) or replaced by exactly the
+// requested one (absolute second = log time + duration); exactly one value is buffered
+//@ func convertRedisKeyToDBKVKey(key []byte) ([]byte, []byte, error)
+//@   trusted table prefix split + encodeKVKey (C12)
+//@   ensures result2 == nil ==> result1 != nil && fresh(result1)
+//@   ensures result2 != errTooMuchBatchSize
+//@ func (db *RockDB) setKV(ts int64, rawKey []byte, value []byte, duration int64) error
+//@   requires db != nil && db.wb != nil && db.cfg != nil
+//@   callassert Put arg2 != nil && len(arg2) >= 8
+//@   callassert resetWithNewKVValue arg4 == duration && arg1 == ts
+//@   ensures result == nil ==> ghost(kvttlset, db) == ite(duration > 0, duration + ts / 1000000000, 0)
+//@   ensures len(value) > MaxValueSize ==> result != nil && ghost(wbputs, db.wb) == old(ghost(wbputs, db.wb)) && ghost(wbver, db.wb) == old(ghost(wbver, db.wb))
+//@   modifies ghost(wbputs, _), ghost(wbdels, _), ghost(wbver, _), ghost(commits, _), ghost(cputs, _), ghost(cdels, _), ghost(cver, _), ghost(tblcnt, db), ghost(kvttlset, db), ghost(expdels, _), ghost(misses, db), ghost(hits, db)
+//@ func (db *RockDB) KVSet(ts int64, rawKey []byte, value []byte) error
+//@   requires db != nil && db.wb != nil && db.cfg != nil
+//@   ensures result == nil ==> ghost(kvttlset, db) == 0
+//@   modifies ghost(wbputs, _), ghost(wbdels, _), ghost(wbver, _), ghost(commits, _), ghost(cputs, _), ghost(cdels, _), ghost(cver, _), ghost(tblcnt, db), ghost(kvttlset, db), ghost(expdels, _), ghost(misses, db), ghost(hits, db)
+//@ func (db *RockDB) SetEx(ts int64, rawKey []byte, duration int64, value []byte) error
+//@   requires db != nil && db.wb != nil && db.cfg != nil
+//@   ensures duration <= 0 ==> result != nil && ghost(wbver, db.wb) == old(ghost(wbver, db.wb))
+//@   ensures result == nil ==> duration > 0 && ghost(kvttlset, db) == duration + ts / 1000000000
+//@   modifies ghost(wbputs, _), ghost(wbdels, _), ghost(wbver, _), ghost(commits, _), ghost(cputs, _), ghost(cdels, _), ghost(cver, _), ghost(tblcnt, db), ghost(kvttlset, db), ghost(expdels, _), ghost(misses, db), ghost(hits, db)
+
+// INCR / INCRBY: the reply is the live old number (0 for an absent or expired key) plus delta
+//@ spec numOf(b []byte) int
+//@ func StrInt64(v []byte, err error) (int64, error)
+//@   trusted strconv.ParseInt of the stored decimal text
+//@   ensures err != nil ==> result1 == err
+//@   ensures result1 == nil ==> result0 == numOf(v)
+//@ func FormatInt64ToSlice(v int64) []byte
+//@   trusted strconv.AppendInt
+//@   ensures fresh(result) && len(result) >= 1
+//@ func (db *RockDB) incr(ts int64, key []byte, delta int64) (int64, error)
+//@   trusted nooverflow INCR overflow wraps like the int64 it is stored in (Redis replies an error; noted, not raised)
+//@   requires db != nil && db.wb != nil && ghost(kvlen, db) >= 0 && ghost(wbputs, db.wb) == 0 && ghost(wbdels, db.wb) == 0
+//@   ensures result1 == nil && ghost(kvexpired, db) == 1 ==> result0 == delta
+//@   ensures result1 == nil ==> ghost(commits, db.rockEng) == old(ghost(commits, db.rockEng)) + 1 && ghost(cputs, db.rockEng) >= 1
+//@   modifies db.isBatching, ghost(wbputs, _), ghost(wbdels, _), ghost(wbver, _), ghost(commits, _), ghost(cputs, _), ghost(cdels, _), ghost(cver, _), ghost(tblcnt, db)
